@@ -119,6 +119,19 @@ theorem C03_powershell_squote_counterexample :
 theorem C03_powershell_cr_counterexample :
     Powershell.readBack false (powershellQuote "a\rb".toList) = none := by decide
 
+/-- since fix b92cb75 the sanitizer drops CR (the regenerated table has the key), so the quoting step never
+    sees one: the hypothesis about CR is discharged -/
+theorem ps_cr_dropped : Replacer.lookup Gen.powershell_sanitizer '\r' = some [] := by decide
+
+theorem C03_powershell_sanitised (v : Str) (hq : '\'' ∉ san Gen.powershell_sanitizer v)
+    (hne : san Gen.powershell_sanitizer v ≠ []) :
+    Powershell.readBack false (powershellQuote (san Gen.powershell_sanitizer v)) = some [san Gen.powershell_sanitizer v] := by
+  apply C03_powershell v hq _ hne
+  intro h
+  have := (Replacer.mem_applyChars_sanitizer ps_sanitizer_shape h).2
+  rw [ps_cr_dropped] at this
+  cases this
+
 example : san Gen.powershell_sanitizer "a b $x (y)".toList ≠ [] ∧ '\'' ∉ san Gen.powershell_sanitizer "a b $x (y)".toList := by decide
 
 /-! ## xonsh -/
@@ -391,7 +404,22 @@ theorem C03_nushell (s : Str) (hp : NuPlain s) (hne : s ≠ []) :
         have hcl := collect_lits_none (c :: t) (by simp)
         simpa [Nushell.final] using hcl
 
-/-- the hypothesis is needed: a tab is neither removed nor quoted and splits the word -/
+/-- since fix b7c1c92 the sanitizer drops tab as well as LF and CR: **every** value reads back as its
+    sanitised text, no hypothesis on its characters is left -/
+theorem nu_sanitizer_shape : Replacer.isSanitizer Gen.nushell_sanitizer = true := by decide
+theorem nu_dropped : Replacer.lookup Gen.nushell_sanitizer '\t' = some [] ∧ Replacer.lookup Gen.nushell_sanitizer '\n' = some [] ∧
+    Replacer.lookup Gen.nushell_sanitizer '\r' = some [] := by decide
+
+theorem C03_nushell_sanitised (v : Str) (hne : san Gen.nushell_sanitizer v ≠ []) :
+    Nushell.readBack false (nushellQuote (san Gen.nushell_sanitizer v)) = some [san Gen.nushell_sanitizer v] := by
+  have hsan : ∀ c ∈ san Gen.nushell_sanitizer v, Replacer.lookup Gen.nushell_sanitizer c = none :=
+    fun c hc => (Replacer.mem_applyChars_sanitizer nu_sanitizer_shape hc).2
+  refine C03_nushell _ ⟨?_, ?_, ?_⟩ hne
+  · intro h; have := hsan _ h; rw [nu_dropped.1] at this; cases this
+  · intro h; have := hsan _ h; rw [nu_dropped.2.1] at this; cases this
+  · intro h; have := hsan _ h; rw [nu_dropped.2.2] at this; cases this
+
+/-- what the quoting step alone does with a tab (before the fix this reached the shell): neither removed nor quoted, the word is split -/
 theorem C03_nushell_tab_counterexample :
     Nushell.readBack false (nushellQuote "a\tb".toList) = some ["a".toList, "b".toList] := by decide
 
